@@ -46,9 +46,10 @@ func (d *defaultPacketLogger) LogRTPPacket(header *rtp.Header, payload []byte, a
 	select {
 	case d.rtpChan <- &rtpDump{
 		attributes: attributes,
+		// the packet is dumped asynchronously: the caller may reuse header and payload once this call returns
 		packet: &rtp.Packet{
-			Header:  *header,
-			Payload: payload,
+			Header:  header.Clone(),
+			Payload: append([]byte(nil), payload...),
 		},
 	}:
 	case <-d.close:
